@@ -225,7 +225,7 @@ CALLS = os.path.join(HERE, 'rules', 'calls.json')
 def _matches(t, callee, ga):
     if not (t['fn'] == callee or t['fn'].endswith('::' + callee) or t['fn'].endswith(callee)):
         return False
-    if ga and not any(ga in g for g in t['ga']):
+    if ga and not any(g == ga or g.endswith('::' + ga) or g.rsplit('::', 1)[-1].split('<')[0] == ga for g in t['ga']):
         return False
     return True
 
@@ -553,4 +553,83 @@ def check_inits(ctx, rid, prop):
                 '%s initialises %s.%s from %s (reviewed: %s). %s' % (e['fn'].split('::')[-1], e['adt'].rsplit('::', 1)[-1], e['field'], got, e['atoms'], e['why']))
     r.stat('entries', len(tab))
     r.floor(found, int(len(tab) * 0.8) if len(tab) >= 5 else 0, 'reviewed initialisers found in the tree')
+    return r
+
+
+# ------------------------------------------------------------------------------------------------ layering / namesakes
+
+def check_layering(ctx, rid):
+    """send side and receive side never touch each other's window or state predicates; trivial getters and the notify / wait
+    primitives touch the field they are named after (wrong-sibling edits: send_flow for recv_flow, max_recv_streams for
+    max_send_streams, recv_task for send_task)"""
+    r = ctx.rule(rid, 'WHO', 'layering and namesakes: Recv code uses recv_flow / is_recv_*, Send and Prioritize code use send_flow / is_send_*; getters and notify primitives touch their namesake field')
+    F = ctx.facts
+    S = 'proto::streams::'
+    ST = S + 'stream::Stream'
+    n = 0
+    for name, f in sorted(F.fns.items()):
+        if '::tests::' in name or name.endswith('::fmt'):
+            continue
+        base = name.split('::{closure')[0]
+        side = 'recv' if base.startswith(S + 'recv::Recv::') else ('send' if base.startswith((S + 'send::Send::', S + 'prioritize::Prioritize::')) else None)
+        if side is None:
+            continue
+        n += 1
+        foreign = 'send_flow' if side == 'recv' else 'recv_flow'
+        hit = None
+        for bi, si, pl, rv, ln in f.stmts():
+            if any(o == ST and fl == foreign for (o, fl) in core.place_fields(pl)) or (rv[0] not in ('setdiscr', 'other') and any(x[0] == 'field' and x[2] == ST and x[3] == foreign for x in walk(f.expr_of_rvalue(rv)))):
+                hit = ln
+        for bi, t in f.calls():
+            if t.get('exp') and any(k in t['exp'] for k in ('trace', 'debug', 'event', 'span')):
+                continue
+            for a in t['a']:
+                if any(x[0] == 'field' and x[2] == ST and x[3] == foreign for x in walk(f.expr_of_op(a))):
+                    hit = t['ln']
+            if t['fn'].startswith(S + 'state::State::is_'):
+                p = t['fn'].rsplit('::', 1)[-1]
+                if (side == 'recv' and p.startswith('is_send_')) or (side == 'send' and p.startswith('is_recv_')):
+                    hit = t['ln']
+                    foreign = p
+        if hit is not None:
+            r.bad('layer|%s|%s' % (base.replace(S, ''), foreign), '%s:%s' % (f.file, hit), '%s (%s side) touches %s — the other direction\'s window / state predicate' % (base.split('::')[-1], side, foreign))
+    r.ok('layer|all', '', '%d send-side / receive-side bodies touch only their own direction' % n)
+    r.floor(n, 100, 'send-side / receive-side bodies examined')
+    # namesake getters
+    g = 0
+    for name, f in sorted(F.fns.items()):
+        if not name.startswith(S) or 'closure' in name or '::tests::' in name or f.argc != 1 or len([b for b in f.blocks if not b['cu']]) > 3:
+            continue
+        e = f.ret_expr()
+        if e is None:
+            continue
+        x = strip(e)
+        if x[0] != 'field' or strip(x[1]) != ('arg', 1):
+            continue
+        own = name.rsplit('::', 1)[-1]
+        a = F.adts.get(x[2])
+        names = [y[0] for y in a['variants'][0]['fields']] if a else []
+        if own in names:
+            g += 1
+            r.check(x[3] == own, 'getter|%s' % name.replace(S, ''), f.file, '%s returns field %s' % (name.replace(S, ''), x[3]))
+    r.floor(g, 10, 'namesake getters')
+    for fn, field in (('notify_send', 'send_task'), ('notify_recv', 'recv_task'), ('notify_push', 'push_task'), ('wait_send', 'send_task')):
+        f = r.fn(ST + '::' + fn)
+        if not f:
+            continue
+        touched = set()
+        for bi, si, pl, rv, ln in f.stmts():
+            for (o, fl) in core.place_fields(pl):
+                if o == ST and fl.endswith('_task'):
+                    touched.add(fl)
+            if rv[0] not in ('setdiscr', 'other'):
+                for y in walk(f.expr_of_rvalue(rv)):
+                    if y[0] == 'field' and y[2] == ST and y[3].endswith('_task'):
+                        touched.add(y[3])
+        for bi, t in f.calls():
+            for a in t['a']:
+                for y in walk(f.expr_of_op(a)):
+                    if y[0] == 'field' and y[2] == ST and y[3].endswith('_task'):
+                        touched.add(y[3])
+        r.check(touched == {field}, 'task|%s' % fn, f.file, 'Stream::%s touches %s' % (fn, sorted(touched)))
     return r
